@@ -30,13 +30,9 @@ def facts(src):
         if got and (got[0][1], got[0][2]) != (order, deferred):
             problems.append('directive %s: phase/deferred changed (%s,%s) -> (%s,%s)'
                             % (n, order, deferred, got[0][1], got[0][2]))
-    for n, d in T.DEFAULT_DISCS.items():
-        got = [s for s in sites if s[0] == n]
-        if got and got[0][3] != d:
-            problems.append('directive %s: discriminator expression changed %r -> %r' % (n, d, got[0][3]))
     ph = ex['phases']
     preds = T.default_view_predicates(src, problems)
-    out = [F.HEADER]
+    out = [F.HEADER, 'Require Import Verif.Model.C04 Verif.Model.C08_base.\n']
     for i in range(4):
         out.append('Definition phase%d : Z := (%d)%%Z.\n' % (i, ph['PHASE%d_CONFIG' % i]))
     out.append('Definition default_order : Z := (%d)%%Z.\n' % ex['default_order'])
@@ -63,6 +59,13 @@ def facts(src):
         problems.append('PredicateList.make: weight expression changed \'1 << n + 1\' -> %r' % wexpr)
     out.append('(* weight of the predicate at position n of the predicate list: %s *)\n' % wexpr.replace('*)', '* )'))
     out.append('Definition pred_weights : list N := [%s]%%N.\n' % '; '.join(str(w) for w in weights))
+    from . import translate
+    gtext, tproblems, tsummary, _, _ = translate.translate_tree(src)
+    problems += tproblems
+    out.append('\n(* ---- regenerated from src/pyramid/config/*.py by harness/c08/translate.py: control flow translated\n'
+               '   mechanically, leaves through the primitive table (see that file) ---- *)\n')
+    out.append(gtext)
+    summary.update(tsummary)
     summary.update({'phases': ph, 'default_order': ex['default_order'], 'n_sites': len(sites),
                     'sites': {s[0]: [s[1], s[2], s[3]] for s in sites}, 'default_view_predicates': preds,
                     'weight_expr': wexpr})
